@@ -132,7 +132,7 @@ Section Patterns.
     intros Hn Hkey HR. rewrite Hn in Hy_sh.
     rewrite (assemble_1d V veqb add y Hy_can (Lout V c ca RW CL) n (c_fill c) Hy_sh Hy_fill).
     - unfold Lout. fold sh cs s keys data. rewrite lout_snd. fold ps data'. f_equal.
-      unfold ind1, ps. rewrite HR. cbn [lout flat_map]. rewrite !app_nil_r, map_map. apply map_ext. intros p. cbn [fst]. lia.
+      unfold ind1, ps. rewrite HR. cbn [lout flat_map]. rewrite !app_nil_r, map_map. apply map_ext. intros p. cbn [fst]. rewrite Z.mul_0_l. reflexivity.
     - apply lout_sorted.
     - rewrite <- Hn in Hy_sh. apply (members_1d n Hn Hkey).
   Qed.
@@ -274,6 +274,43 @@ Section BRfrom.
   Qed.
 End BRfrom.
 
+
+(* ================================================================ indices without None *)
+Definition no_new (ix : index) : bool := forallb (fun e => negb (is_new e)) ix.
+
+Lemma no_new_expand nd ix ex : expand nd ix = Ok ex -> no_new ix = true -> no_new ex = true.
+Proof.
+  unfold expand. destruct (1 <? countb is_ell ix); [discriminate|].
+  destruct (nd - countb consumes ix <? 0); [discriminate|]. intros H Hb. inversion H; subst ex. clear H.
+  unfold no_new in *. rewrite forallb_forall in *.
+  assert (Hfull : forall e k, In e (repeat full_slice k) -> e = full_slice) by (intros e k Hin; eapply repeat_spec; eauto).
+  intros e He. destruct (0 <? countb is_ell ix).
+  - apply subst_In in He. destruct He as [He|He]; [rewrite (Hfull _ _ He); reflexivity|auto].
+  - apply in_app_iff in He. destruct He as [He|He]; [auto|rewrite (Hfull _ _ He); reflexivity].
+Qed.
+
+Lemma norm_all_not_none ex : forall sh,
+  no_new ex = true -> fits ex sh = true -> shape_okb sh = true -> no_zero_step ex = true ->
+  forallb not_none (norm_all ex sh) = true.
+Proof.
+  induction ex as [|e r IH]; intros sh Hnn Hf Hsh Hz; [reflexivity|].
+  simpl in Hz, Hnn. apply andb_true_iff in Hz, Hnn. destruct Hz as [Hze Hz], Hnn as [Hne Hnn].
+  destruct e; try discriminate; (destruct sh as [|d sh']; [discriminate|]); simpl in Hsh, Hf; apply andb_true_iff in Hsh;
+    destruct Hsh as [Hd Hsh]; cbn [norm_all nentry_spec forallb]; rewrite (IH sh' Hnn Hf Hsh Hz); try reflexivity.
+  assert (Hc : c <> Some 0) by (intros ->; discriminate).
+  destruct (normalize_slice_ok a b c d ltac:(lia) Hc) as [s [e' [st [En _]]]].
+  unfold nslice_of. rewrite En. reflexivity.
+Qed.
+
+Lemma np_index_basic sh ix nix :
+  resolve_all sh ix = Ok (map to_r nix) -> no_arr nix = true ->
+  np_index sh ix = Ok (out_shape (map to_r nix), src_of (map to_r nix)).
+Proof.
+  intros Hr Hna. rewrite np_index_eq, Hr. cbn [bind]. unfold broadcast.
+  rewrite (adv_lens_no_adv _ (to_r_no_adv nix Hna)). cbn [bcast_len fold_right forallb bind].
+  rewrite (stretch_no_adv _ _ (to_r_no_adv nix Hna)). reflexivity.
+Qed.
+
 (* ================================================================ the 2-d theorem *)
 Section TwoD.
   Variable V : Type.
@@ -341,4 +378,469 @@ Section TwoD.
     intros Hst H. apply SS_lt_sincr. apply range_list_SS_lt. destruct (Z.ltb_spec st 0); [discriminate|lia].
   Qed.
 
+
+  Lemma zat_bounds l d q : (forall x, In x l -> 0 <= x < d) -> 0 <= q < Z.of_nat (length l) -> 0 <= zat l q < d.
+  Proof. intros H Hq. apply H. unfold zat. apply nth_In. lia. Qed.
+
+  Lemma case0_SS ix y s0 e0 st0 s1 e1 st1 :
+    let nix := [NSlice s0 e0 st0; NSlice s1 e1 st1] in
+    normalize_index ix [d0;d1] = Ok nix -> all_full nix [d0;d1] = false -> nwf nix [d0;d1] ->
+    yfacts y (out_shape (map to_r nix)) (src_of (map to_r nix)) ->
+    post (out_shape (map to_r nix)) (src_of (map to_r nix)) (gcxs_getitem_nd V (gcxs_from_coo c [0]) ix).
+  Proof.
+    intros nix Hn Haf Hwf Hy. destruct Hwf as [Hst0 [Hr0 [Hst1 [Hr1 _]]]].
+    pose proof Hy as [Hy_sh [Hy_fill [Hy_can [Hy_den Hy_ent]]]].
+    change (map to_r nix) with [RSel (range_list s0 e0 st0); RSel (range_list s1 e1 st1)] in *.
+    set (V0 := range_list s0 e0 st0) in *. set (V1 := range_list s1 e1 st1) in *.
+    change (out_shape [RSel V0; RSel V1]) with [Z.of_nat (length V0); Z.of_nat (length V1)] in *.
+    set (sh' := [Z.of_nat (length V0); Z.of_nat (length V1)]) in *. set (gsrc := src_of [RSel V0; RSel V1]) in *.
+    destruct rc_sizes as [Er0 [Ec0 _]].
+    assert (Hok' : shape_ok sh') by (repeat constructor; lia).
+    rewrite (from_coo_gg 0 (or_introl eq_refl)). rewrite (f0_SS _ _ _ _ _ _ _ _ _ _ _ _ _ _ Hn Haf).
+    rewrite <- (from_coo_gg 0 (or_introl eq_refl)). rewrite !flat1. fold V0 V1.
+    assert (HRW : Forall (fun r => 0 <= r < row_size (c_shape c) [0]) V0) by (rewrite Er0; apply range_list_in_bounds; exact Hr0).
+    assert (HCL : Forall (fun x => 0 <= x < col_size (c_shape c) [0]) V1) by (rewrite Ec0; apply range_list_in_bounds; exact Hr1).
+    rewrite (tail_eval V c [0] Hc Hok2 (Hca2 0 (or_introl eq_refl)) Hnd2 V0 V1 _ HRW HCL (pos_sincr s1 e1 st1 Hst1)).
+    2: { rewrite slice_len_len by assumption. fold V0. lia. }
+    rewrite !slice_len_len by assumption. fold V0 V1. fold sh'. unfold dat, ind.
+    assert (H1 : forall j, in_range sh' j ->
+      0 <= hd 0 j < Z.of_nat (length V0) /\ 0 <= hd 0 (tl j) < Z.of_nat (length V1)
+      /\ ckey sh' [0] j = hd 0 j * Z.of_nat (length V1) + hd 0 (tl j)
+      /\ ckey (c_shape c) [0] (gsrc j) = zat V0 (hd 0 j) * col_size (c_shape c) [0] + zat V1 (hd 0 (tl j))).
+    { intros j Hj. apply in_range2 in Hj. destruct Hj as [q0 [q1 [-> [Hq0 Hq1]]]]. cbn [hd tl].
+      split; [exact Hq0|]. split; [exact Hq1|]. split.
+      - change (ckey sh' [0] [q0; q1]) with (q0 * (Z.of_nat (length V1) * 1) + (q1 * 1 + 0)). ring.
+      - rewrite Ec0, Hsh. change (gsrc [q0; q1]) with [zat V0 q0; zat V1 q1].
+        change (ckey [d0; d1] [0] [zat V0 q0; zat V1 q1]) with (zat V0 q0 * (d1 * 1) + (zat V1 q1 * 1 + 0)). ring. }
+    assert (H2 : forall m cc, 0 <= m < Z.of_nat (length V0) -> 0 <= cc < Z.of_nat (length V1) ->
+      exists j, in_range sh' j /\ in_range (c_shape c) (gsrc j) /\ hd 0 j = m /\ hd 0 (tl j) = cc).
+    { intros m cc Hm Hcc. exists [m; cc]. split; [simpl; lia|]. split; [|split; reflexivity].
+      rewrite Hsh. change (gsrc [m; cc]) with [zat V0 m; zat V1 cc]. simpl.
+      pose proof (zat_bounds V0 d0 m Hr0 Hm). pose proof (zat_bounds V1 d1 cc Hr1 Hcc). tauto. }
+    match goal with |- post _ _ (Ok (GGArr ?r)) => assert (E : r = gcxs_from_coo y [0]) end.
+    { apply (pat_nd V c [0] Hc (Hca2 0 (or_introl eq_refl)) V0 V1 sh' gsrc y Hy_can Hy_sh Hy_fill Hy_ent Hok' (ckey sh' [0])
+               (br2 _ _ _ _ _ _ _ _ _ _ H1) (br3 _ _ _ _ _ _ _ _ _ _ H1 H2)).
+      - simpl; lia.
+      - reflexivity.
+      - reflexivity.
+      - unfold sh'. change (row_size _ [0]) with (Z.of_nat (length V0) * 1). lia.
+      - unfold sh'. change (col_size _ [0]) with (Z.of_nat (length V1) * 1). lia. }
+    rewrite E. apply post_from_coo; [exact Hy|exact Hok'|right; reflexivity].
+  Qed.
+
+  Lemma case1_SS ix y s0 e0 st0 s1 e1 st1 :
+    let nix := [NSlice s0 e0 st0; NSlice s1 e1 st1] in
+    normalize_index ix [d0;d1] = Ok nix -> all_full nix [d0;d1] = false -> nwf nix [d0;d1] ->
+    yfacts y (out_shape (map to_r nix)) (src_of (map to_r nix)) ->
+    post (out_shape (map to_r nix)) (src_of (map to_r nix)) (gcxs_getitem_nd V (gcxs_from_coo c [1]) ix).
+  Proof.
+    intros nix Hn Haf Hwf Hy. destruct Hwf as [Hst0 [Hr0 [Hst1 [Hr1 _]]]].
+    pose proof Hy as [Hy_sh [Hy_fill [Hy_can [Hy_den Hy_ent]]]].
+    change (map to_r nix) with [RSel (range_list s0 e0 st0); RSel (range_list s1 e1 st1)] in *.
+    set (V0 := range_list s0 e0 st0) in *. set (V1 := range_list s1 e1 st1) in *.
+    change (out_shape [RSel V0; RSel V1]) with [Z.of_nat (length V0); Z.of_nat (length V1)] in *.
+    set (sh' := [Z.of_nat (length V0); Z.of_nat (length V1)]) in *. set (gsrc := src_of [RSel V0; RSel V1]) in *.
+    destruct rc_sizes as [_ [_ [Er1 Ec1]]].
+    assert (Hok' : shape_ok sh') by (repeat constructor; lia).
+    rewrite (from_coo_gg 1 (or_intror eq_refl)). rewrite (f1_SS _ _ _ _ _ _ _ _ _ _ _ _ _ _ Hn Haf).
+    rewrite <- (from_coo_gg 1 (or_intror eq_refl)). rewrite !flat1. fold V0 V1.
+    assert (HRW : Forall (fun r => 0 <= r < row_size (c_shape c) [1]) V1) by (rewrite Er1; apply range_list_in_bounds; exact Hr1).
+    assert (HCL : Forall (fun x => 0 <= x < col_size (c_shape c) [1]) V0) by (rewrite Ec1; apply range_list_in_bounds; exact Hr0).
+    rewrite (tail_eval V c [1] Hc Hok2 (Hca2 1 (or_intror eq_refl)) Hnd2 V1 V0 _ HRW HCL (pos_sincr s0 e0 st0 Hst0)).
+    2: { rewrite slice_len_len by assumption. fold V1. lia. }
+    rewrite !slice_len_len by assumption. fold V0 V1. fold sh'. unfold dat, ind.
+    assert (H1 : forall j, in_range sh' j ->
+      0 <= hd 0 (tl j) < Z.of_nat (length V1) /\ 0 <= hd 0 j < Z.of_nat (length V0)
+      /\ ckey sh' [1] j = hd 0 (tl j) * Z.of_nat (length V0) + hd 0 j
+      /\ ckey (c_shape c) [1] (gsrc j) = zat V1 (hd 0 (tl j)) * col_size (c_shape c) [1] + zat V0 (hd 0 j)).
+    { intros j Hj. apply in_range2 in Hj. destruct Hj as [q0 [q1 [-> [Hq0 Hq1]]]]. cbn [hd tl].
+      split; [exact Hq1|]. split; [exact Hq0|]. split.
+      - change (ckey sh' [1] [q0; q1]) with (q1 * (Z.of_nat (length V0) * 1) + (q0 * 1 + 0)). ring.
+      - rewrite Ec1, Hsh. change (gsrc [q0; q1]) with [zat V0 q0; zat V1 q1].
+        change (ckey [d0; d1] [1] [zat V0 q0; zat V1 q1]) with (zat V1 q1 * (d0 * 1) + (zat V0 q0 * 1 + 0)). ring. }
+    assert (H2 : forall m cc, 0 <= m < Z.of_nat (length V1) -> 0 <= cc < Z.of_nat (length V0) ->
+      exists j, in_range sh' j /\ in_range (c_shape c) (gsrc j) /\ hd 0 (tl j) = m /\ hd 0 j = cc).
+    { intros m cc Hm Hcc. exists [cc; m]. split; [simpl; lia|]. split; [|split; reflexivity].
+      rewrite Hsh. change (gsrc [cc; m]) with [zat V0 cc; zat V1 m]. simpl.
+      pose proof (zat_bounds V0 d0 cc Hr0 Hcc). pose proof (zat_bounds V1 d1 m Hr1 Hm). tauto. }
+    match goal with |- post _ _ (Ok (GGArr ?r)) => assert (E : r = gcxs_from_coo y [1]) end.
+    { apply (pat_nd V c [1] Hc (Hca2 1 (or_intror eq_refl)) V1 V0 sh' gsrc y Hy_can Hy_sh Hy_fill Hy_ent Hok' (ckey sh' [1])
+               (br2 _ _ _ _ _ _ _ _ _ _ H1) (br3 _ _ _ _ _ _ _ _ _ _ H1 H2)).
+      - simpl; lia.
+      - reflexivity.
+      - reflexivity.
+      - unfold sh'. change (row_size _ [1]) with (Z.of_nat (length V1) * 1). lia.
+      - unfold sh'. change (col_size _ [1]) with (Z.of_nat (length V0) * 1). lia. }
+    rewrite E. apply post_from_coo; [exact Hy|exact Hok'|right; reflexivity].
+  Qed.
+
+  Lemma sincr_single x : sincr [x].
+  Proof. intros p q Hpq Hq. simpl in Hq. lia. Qed.
+
+  Lemma case0_IS ix y i s e st :
+    let nix := [NInt i; NSlice s e st] in
+    normalize_index ix [d0;d1] = Ok nix -> all_full nix [d0;d1] = false -> nwf nix [d0;d1] ->
+    yfacts y (out_shape (map to_r nix)) (src_of (map to_r nix)) ->
+    post (out_shape (map to_r nix)) (src_of (map to_r nix)) (gcxs_getitem_nd V (gcxs_from_coo c [0]) ix).
+  Proof.
+    intros nix Hn Haf Hwf Hy. destruct Hwf as [Hi [Hst [Hr _]]].
+    pose proof Hy as [Hy_sh [Hy_fill [Hy_can [Hy_den Hy_ent]]]].
+    change (map to_r nix) with [RInt i; RSel (range_list s e st)] in *.
+    set (W := range_list s e st) in *.
+    change (out_shape [RInt i; RSel W]) with [Z.of_nat (length W)] in *.
+    set (sh' := [Z.of_nat (length W)]) in *. set (gsrc := src_of [RInt i; RSel W]) in *.
+    destruct rc_sizes as [Er [Ec _]].
+    assert (Hok' : shape_ok sh') by (repeat constructor; lia).
+    rewrite (from_coo_gg 0 (or_introl eq_refl)). rewrite (f0_IS _ _ _ _ _ _ _ _ _ _ _ _ Hn Haf).
+    rewrite <- (from_coo_gg 0 (or_introl eq_refl)). rewrite !flat1. fold W.
+    assert (HRW : Forall (fun r => 0 <= r < row_size (c_shape c) [0]) [i]) by (rewrite Er; apply Forall_single; lia).
+    assert (HCL : Forall (fun x => 0 <= x < col_size (c_shape c) [0]) W) by (rewrite Ec; apply range_list_in_bounds; exact Hr).
+    rewrite (tail_eval V c [0] Hc Hok2 (Hca2 0 (or_introl eq_refl)) Hnd2 [i] W _ HRW HCL (pos_sincr s e st Hst)).
+    2: { reflexivity. }
+    rewrite !slice_len_len by assumption. fold W. fold sh'. unfold dat, ind.
+    assert (H1 : forall j, in_range sh' j ->
+      0 <= 0 < Z.of_nat (length [i]) /\ 0 <= hd 0 j < Z.of_nat (length W)
+      /\ hd 0 j = 0 * Z.of_nat (length W) + hd 0 j
+      /\ ckey (c_shape c) [0] (gsrc j) = zat [i] 0 * col_size (c_shape c) [0] + zat W (hd 0 j)).
+    { intros j Hj. apply in_range1 in Hj. destruct Hj as [q [-> Hq]]. cbn [hd tl].
+      split; [simpl; lia|]. split; [exact Hq|]. split; [simpl; ring|].
+      rewrite Ec, Hsh. change (gsrc [q]) with [i; zat W q]. change (zat [i] 0) with i.
+      change (ckey [d0; d1] [0] [i; zat W q]) with (i * (d1 * 1) + (zat W q * 1 + 0)). ring. }
+    assert (H2 : forall m cc, 0 <= m < Z.of_nat (length [i]) -> 0 <= cc < Z.of_nat (length W) ->
+      exists j, in_range sh' j /\ in_range (c_shape c) (gsrc j) /\ 0 = m /\ hd 0 j = cc).
+    { intros m cc Hm Hcc. exists [cc]. split; [simpl; lia|]. split; [|split; [simpl in Hm; lia|reflexivity]].
+      rewrite Hsh. change (gsrc [cc]) with [i; zat W cc]. simpl. pose proof (zat_bounds W d1 cc Hr ltac:(lia)). tauto. }
+    match goal with |- post _ _ (Ok (GGArr ?r)) => assert (E : r = gcxs_from_coo y [0]) end.
+    { apply (pat_cols V veqb add c [0] Hc (Hca2 0 (or_introl eq_refl)) [i] W sh' gsrc y Hy_can Hy_sh Hy_fill Hy_ent (hd 0)
+               (br2 _ _ _ _ _ _ _ _ (fun j => 0) (fun j => hd 0 j) H1) (br3 _ _ _ _ _ _ _ _ (fun j => 0) (fun j => hd 0 j) H1 H2)
+               (Z.of_nat (length W)) i [0]); reflexivity. }
+    rewrite E. apply post_from_coo; [exact Hy|exact Hok'|left; simpl; lia].
+  Qed.
+
+  Lemma case0_SI ix y i s e st :
+    let nix := [NSlice s e st; NInt i] in
+    normalize_index ix [d0;d1] = Ok nix -> all_full nix [d0;d1] = false -> nwf nix [d0;d1] ->
+    yfacts y (out_shape (map to_r nix)) (src_of (map to_r nix)) ->
+    post (out_shape (map to_r nix)) (src_of (map to_r nix)) (gcxs_getitem_nd V (gcxs_from_coo c [0]) ix).
+  Proof.
+    intros nix Hn Haf Hwf Hy. destruct Hwf as [Hst [Hr [Hi _]]].
+    pose proof Hy as [Hy_sh [Hy_fill [Hy_can [Hy_den Hy_ent]]]].
+    change (map to_r nix) with [RSel (range_list s e st); RInt i] in *.
+    set (W := range_list s e st) in *.
+    change (out_shape [RSel W; RInt i]) with [Z.of_nat (length W)] in *.
+    set (sh' := [Z.of_nat (length W)]) in *. set (gsrc := src_of [RSel W; RInt i]) in *.
+    destruct rc_sizes as [Er [Ec _]].
+    assert (Hok' : shape_ok sh') by (repeat constructor; lia).
+    rewrite (from_coo_gg 0 (or_introl eq_refl)). rewrite (f0_SI _ _ _ _ _ _ _ _ _ _ _ _ Hn Haf).
+    rewrite <- (from_coo_gg 0 (or_introl eq_refl)). rewrite !flat1. fold W.
+    assert (HRW : Forall (fun r => 0 <= r < row_size (c_shape c) [0]) W) by (rewrite Er; apply range_list_in_bounds; exact Hr).
+    assert (HCL : Forall (fun x => 0 <= x < col_size (c_shape c) [0]) [i]) by (rewrite Ec; apply Forall_single; lia).
+    rewrite (tail_eval V c [0] Hc Hok2 (Hca2 0 (or_introl eq_refl)) Hnd2 W [i] _ HRW HCL (fun _ => sincr_single i)).
+    2: { reflexivity. }
+    rewrite !slice_len_len by assumption. fold W. fold sh'. unfold dat, ind.
+    assert (H1 : forall j, in_range sh' j ->
+      0 <= hd 0 j < Z.of_nat (length W) /\ 0 <= 0 < Z.of_nat (length [i])
+      /\ hd 0 j = hd 0 j * Z.of_nat (length [i]) + 0
+      /\ ckey (c_shape c) [0] (gsrc j) = zat W (hd 0 j) * col_size (c_shape c) [0] + zat [i] 0).
+    { intros j Hj. apply in_range1 in Hj. destruct Hj as [q [-> Hq]]. cbn [hd tl].
+      split; [exact Hq|]. split; [simpl; lia|]. split; [simpl; ring|].
+      rewrite Ec, Hsh. change (gsrc [q]) with [zat W q; i]. change (zat [i] 0) with i.
+      change (ckey [d0; d1] [0] [zat W q; i]) with (zat W q * (d1 * 1) + (i * 1 + 0)). ring. }
+    assert (H2 : forall m cc, 0 <= m < Z.of_nat (length W) -> 0 <= cc < Z.of_nat (length [i]) ->
+      exists j, in_range sh' j /\ in_range (c_shape c) (gsrc j) /\ hd 0 j = m /\ 0 = cc).
+    { intros m cc Hm Hcc. exists [m]. split; [simpl; lia|]. split; [|split; [reflexivity|simpl in Hcc; lia]].
+      rewrite Hsh. change (gsrc [m]) with [zat W m; i]. simpl. pose proof (zat_bounds W d0 m Hr ltac:(lia)). tauto. }
+    match goal with |- post _ _ (Ok (GGArr ?r)) => assert (E : r = gcxs_from_coo y [0]) end.
+    { apply (pat_rows V veqb add c [0] Hc (Hca2 0 (or_introl eq_refl)) W [i] sh' gsrc y Hy_can Hy_sh Hy_fill Hy_ent (hd 0)
+               (br2 _ _ _ _ _ _ _ _ (fun j => hd 0 j) (fun j => 0) H1) (br3 _ _ _ _ _ _ _ _ (fun j => hd 0 j) (fun j => 0) H1 H2)
+               (Z.of_nat (length W)) i [0]); reflexivity. }
+    rewrite E. apply post_from_coo; [exact Hy|exact Hok'|left; simpl; lia].
+  Qed.
+
+  Lemma case1_IS ix y i s e st :
+    let nix := [NInt i; NSlice s e st] in
+    normalize_index ix [d0;d1] = Ok nix -> all_full nix [d0;d1] = false -> nwf nix [d0;d1] ->
+    yfacts y (out_shape (map to_r nix)) (src_of (map to_r nix)) ->
+    post (out_shape (map to_r nix)) (src_of (map to_r nix)) (gcxs_getitem_nd V (gcxs_from_coo c [1]) ix).
+  Proof.
+    intros nix Hn Haf Hwf Hy. destruct Hwf as [Hi [Hst [Hr _]]].
+    pose proof Hy as [Hy_sh [Hy_fill [Hy_can [Hy_den Hy_ent]]]].
+    change (map to_r nix) with [RInt i; RSel (range_list s e st)] in *.
+    set (W := range_list s e st) in *.
+    change (out_shape [RInt i; RSel W]) with [Z.of_nat (length W)] in *.
+    set (sh' := [Z.of_nat (length W)]) in *. set (gsrc := src_of [RInt i; RSel W]) in *.
+    destruct rc_sizes as [_ [_ [Er Ec]]].
+    assert (Hok' : shape_ok sh') by (repeat constructor; lia).
+    rewrite (from_coo_gg 1 (or_intror eq_refl)). rewrite (f1_IS _ _ _ _ _ _ _ _ _ _ _ _ Hn Haf).
+    rewrite <- (from_coo_gg 1 (or_intror eq_refl)). rewrite !flat1. fold W.
+    assert (HRW : Forall (fun r => 0 <= r < row_size (c_shape c) [1]) W) by (rewrite Er; apply range_list_in_bounds; exact Hr).
+    assert (HCL : Forall (fun x => 0 <= x < col_size (c_shape c) [1]) [i]) by (rewrite Ec; apply Forall_single; lia).
+    rewrite (tail_eval V c [1] Hc Hok2 (Hca2 1 (or_intror eq_refl)) Hnd2 W [i] _ HRW HCL (fun _ => sincr_single i)).
+    2: { reflexivity. }
+    rewrite !slice_len_len by assumption. fold W. fold sh'. unfold dat, ind.
+    assert (H1 : forall j, in_range sh' j ->
+      0 <= hd 0 j < Z.of_nat (length W) /\ 0 <= 0 < Z.of_nat (length [i])
+      /\ hd 0 j = hd 0 j * Z.of_nat (length [i]) + 0
+      /\ ckey (c_shape c) [1] (gsrc j) = zat W (hd 0 j) * col_size (c_shape c) [1] + zat [i] 0).
+    { intros j Hj. apply in_range1 in Hj. destruct Hj as [q [-> Hq]]. cbn [hd tl].
+      split; [exact Hq|]. split; [simpl; lia|]. split; [simpl; ring|].
+      rewrite Ec, Hsh. change (gsrc [q]) with [i; zat W q]. change (zat [i] 0) with i.
+      change (ckey [d0; d1] [1] [i; zat W q]) with (zat W q * (d0 * 1) + (i * 1 + 0)). ring. }
+    assert (H2 : forall m cc, 0 <= m < Z.of_nat (length W) -> 0 <= cc < Z.of_nat (length [i]) ->
+      exists j, in_range sh' j /\ in_range (c_shape c) (gsrc j) /\ hd 0 j = m /\ 0 = cc).
+    { intros m cc Hm Hcc. exists [m]. split; [simpl; lia|]. split; [|split; [reflexivity|simpl in Hcc; lia]].
+      rewrite Hsh. change (gsrc [m]) with [i; zat W m]. simpl. pose proof (zat_bounds W d1 m Hr ltac:(lia)). tauto. }
+    match goal with |- post _ _ (Ok (GGArr ?r)) => assert (E : r = gcxs_from_coo y [0]) end.
+    { apply (pat_rows V veqb add c [1] Hc (Hca2 1 (or_intror eq_refl)) W [i] sh' gsrc y Hy_can Hy_sh Hy_fill Hy_ent (hd 0)
+               (br2 _ _ _ _ _ _ _ _ (fun j => hd 0 j) (fun j => 0) H1) (br3 _ _ _ _ _ _ _ _ (fun j => hd 0 j) (fun j => 0) H1 H2)
+               (Z.of_nat (length W)) i [0]); reflexivity. }
+    rewrite E. apply post_from_coo; [exact Hy|exact Hok'|left; simpl; lia].
+  Qed.
+
+  Lemma case1_SI ix y i s e st :
+    let nix := [NSlice s e st; NInt i] in
+    normalize_index ix [d0;d1] = Ok nix -> all_full nix [d0;d1] = false -> nwf nix [d0;d1] ->
+    yfacts y (out_shape (map to_r nix)) (src_of (map to_r nix)) ->
+    post (out_shape (map to_r nix)) (src_of (map to_r nix)) (gcxs_getitem_nd V (gcxs_from_coo c [1]) ix).
+  Proof.
+    intros nix Hn Haf Hwf Hy. destruct Hwf as [Hst [Hr [Hi _]]].
+    pose proof Hy as [Hy_sh [Hy_fill [Hy_can [Hy_den Hy_ent]]]].
+    change (map to_r nix) with [RSel (range_list s e st); RInt i] in *.
+    set (W := range_list s e st) in *.
+    change (out_shape [RSel W; RInt i]) with [Z.of_nat (length W)] in *.
+    set (sh' := [Z.of_nat (length W)]) in *. set (gsrc := src_of [RSel W; RInt i]) in *.
+    destruct rc_sizes as [_ [_ [Er Ec]]].
+    assert (Hok' : shape_ok sh') by (repeat constructor; lia).
+    rewrite (from_coo_gg 1 (or_intror eq_refl)). rewrite (f1_SI _ _ _ _ _ _ _ _ _ _ _ _ Hn Haf).
+    rewrite <- (from_coo_gg 1 (or_intror eq_refl)). rewrite !flat1. fold W.
+    assert (HRW : Forall (fun r => 0 <= r < row_size (c_shape c) [1]) [i]) by (rewrite Er; apply Forall_single; lia).
+    assert (HCL : Forall (fun x => 0 <= x < col_size (c_shape c) [1]) W) by (rewrite Ec; apply range_list_in_bounds; exact Hr).
+    rewrite (tail_eval V c [1] Hc Hok2 (Hca2 1 (or_intror eq_refl)) Hnd2 [i] W _ HRW HCL (pos_sincr s e st Hst)).
+    2: { reflexivity. }
+    rewrite !slice_len_len by assumption. fold W. fold sh'. unfold dat, ind.
+    assert (H1 : forall j, in_range sh' j ->
+      0 <= 0 < Z.of_nat (length [i]) /\ 0 <= hd 0 j < Z.of_nat (length W)
+      /\ hd 0 j = 0 * Z.of_nat (length W) + hd 0 j
+      /\ ckey (c_shape c) [1] (gsrc j) = zat [i] 0 * col_size (c_shape c) [1] + zat W (hd 0 j)).
+    { intros j Hj. apply in_range1 in Hj. destruct Hj as [q [-> Hq]]. cbn [hd tl].
+      split; [simpl; lia|]. split; [exact Hq|]. split; [simpl; ring|].
+      rewrite Ec, Hsh. change (gsrc [q]) with [zat W q; i]. change (zat [i] 0) with i.
+      change (ckey [d0; d1] [1] [zat W q; i]) with (i * (d0 * 1) + (zat W q * 1 + 0)). ring. }
+    assert (H2 : forall m cc, 0 <= m < Z.of_nat (length [i]) -> 0 <= cc < Z.of_nat (length W) ->
+      exists j, in_range sh' j /\ in_range (c_shape c) (gsrc j) /\ 0 = m /\ hd 0 j = cc).
+    { intros m cc Hm Hcc. exists [cc]. split; [simpl; lia|]. split; [|split; [simpl in Hm; lia|reflexivity]].
+      rewrite Hsh. change (gsrc [cc]) with [zat W cc; i]. simpl. pose proof (zat_bounds W d0 cc Hr ltac:(lia)). tauto. }
+    match goal with |- post _ _ (Ok (GGArr ?r)) => assert (E : r = gcxs_from_coo y [0]) end.
+    { apply (pat_cols V veqb add c [1] Hc (Hca2 1 (or_intror eq_refl)) [i] W sh' gsrc y Hy_can Hy_sh Hy_fill Hy_ent (hd 0)
+               (br2 _ _ _ _ _ _ _ _ (fun j => 0) (fun j => hd 0 j) H1) (br3 _ _ _ _ _ _ _ _ (fun j => 0) (fun j => hd 0 j) H1 H2)
+               (Z.of_nat (length W)) i [0]); reflexivity. }
+    rewrite E. apply post_from_coo; [exact Hy|exact Hok'|left; simpl; lia].
+  Qed.
+
+  Lemma case_II a ix i j : a = 0 \/ a = 1 ->
+    normalize_index ix [d0;d1] = Ok [NInt i; NInt j] -> nwf [NInt i; NInt j] [d0;d1] ->
+    gcxs_getitem_nd V (gcxs_from_coo c [a]) ix = Ok (GGScalar (den c [i; j])).
+  Proof.
+    intros Ha Hn [Hi [Hj _]]. rewrite (from_coo_gg a Ha). rewrite (f_II _ _ _ _ _ _ _ _ _ _ _ Hn). cbv zeta. f_equal. f_equal.
+    assert (Hin : in_range (c_shape c) [i; j]) by (rewrite Hsh; simpl; tauto).
+    pose proof (single_element_den V c [a] Hc Hok2 (Hca2 a Ha) [i; j] Hin) as E.
+    rewrite Hsh in E. rewrite Hsh. destruct Ha; subst a; exact E.
+  Qed.
+
+  Definition g2 (a : Z) : gcxs V := gcxs_from_coo c [a].
+
+  Lemma g2_shape a : a = 0 \/ a = 1 -> g_shape (g2 a) = [d0; d1].
+  Proof. intros Ha. unfold g2. rewrite (from_coo_gg a Ha). reflexivity. Qed.
+
+  Definition post' (sh' : shape) (gsrc : idx -> idx) (r : res (ggres V)) : Prop :=
+    match r with
+    | Ok (GGArr g') => g_shape g' = sh' /\ g_fill g' = c_fill c /\ gcxs_wfb g' = true
+                       /\ forall j, in_range sh' j -> gden g' j = den c (gsrc j)
+    | Ok (GGScalar v) => sh' = [] /\ v = den c (gsrc [])
+    | Raise _ => False
+    end.
+
+  Lemma post_post' sh' gsrc r : post sh' gsrc r -> post' sh' gsrc r.
+  Proof. destruct r as [[v|g']|e]; simpl; tauto. Qed.
+
+  Theorem gcxs_getitem_2d_proof (kf : nat -> nat) a ix :
+    a = 0 \/ a = 1 -> no_zero_step ix = true -> basic ix = true -> no_new ix = true ->
+    match np_index [d0; d1] ix with
+    | Raise e => gcxs_getitem V veqb add kf (g2 a) ix = Raise e /\ e = IndexError
+    | Ok (sh', gsrc) =>
+      match gcxs_getitem V veqb add kf (g2 a) ix with
+      | Ok (GGArr g') => g_shape g' = sh' /\ g_fill g' = c_fill c /\ gcxs_wfb g' = true
+                         /\ forall j, in_range sh' j -> gden g' j = den c (gsrc j)
+      | Ok (GGScalar v) => sh' = [] /\ v = den c (gsrc [])
+      | Raise _ => False
+      end
+    end.
+  Proof.
+    intros Ha Hz Hb Hnn. set (sh := [d0; d1]).
+    assert (Hshb : shape_okb sh = true) by (unfold shape_okb, sh; simpl; lia).
+    assert (Hgi : gcxs_getitem V veqb add kf (g2 a) ix = gcxs_getitem_nd V (g2 a) ix).
+    { unfold gcxs_getitem. rewrite (g2_shape a Ha). reflexivity. }
+    rewrite Hgi. clear Hgi.
+    pose proof (coo_getitem_basic_strong V kf c ix Hc ltac:(rewrite Hsh; exact Hshb) Hz Hb) as HC. rewrite Hsh in HC. fold sh in HC.
+    assert (Hd : d29_clause sh ix = true).
+    { unfold d29_clause. destruct (expand (Z.of_nat (length sh)) ix) as [ex|] eqn:E; [|reflexivity].
+      apply basic_bool_ok. eapply basic_expand; eauto. }
+    destruct (normalize_link sh ix Hshb Hz Hd) as [[ex [E [Hf [Hao [Hn Hr]]]]]|[Hn Hr]].
+    2: { rewrite np_index_eq, Hr. cbn [bind]. unfold gcxs_getitem_nd. rewrite (g2_shape a Ha). fold sh. rewrite Hn. auto. }
+    set (nix := norm_all ex sh) in *.
+    assert (Hwf : nwf nix sh) by (apply norm_all_nwf; auto; eapply expand_nzs; eauto).
+    assert (Hna : no_arr nix = true) by (apply basic_norm_no_arr; eapply basic_expand; eauto).
+    assert (Hno : forallb not_none nix = true).
+    { apply norm_all_not_none; auto; [eapply no_new_expand; eauto|eapply expand_nzs; eauto]. }
+    assert (Hlen : length nix = 2%nat) by (apply (nwf_length nix sh Hwf Hno)).
+    rewrite (np_index_basic sh ix nix Hr Hna) in *.
+    destruct (all_full nix sh) eqn:Haf.
+    - (* the array itself *)
+      assert (Eg : gcxs_getitem_nd V (g2 a) ix = Ok (GGArr (g2 a))).
+      { unfold gcxs_getitem_nd. rewrite (g2_shape a Ha). fold sh. rewrite Hn. cbn [bind]. rewrite Haf. reflexivity. }
+      rewrite Eg. destruct (all_full_true nix sh Haf) as [El Ef].
+      destruct (all_full_id nix sh Hshb Ef El) as [H1 H2]. rewrite H1.
+      assert (Hax : axes_ok (c_shape c) [a]) by (right; apply (Hca2 a Ha)).
+      split; [apply (g2_shape a Ha)|]. split; [unfold g2; rewrite (from_coo_gg a Ha); reflexivity|]. split.
+      + apply (gcxs_from_coo_wf_proof V veqb add c [a] Hc Hok2 Hax).
+      + intros j Hj. rewrite (H2 j Hj). apply (gcxs_from_coo_den_proof V veqb add c [a] j Hc Hok2 Hax).
+    - destruct nix as [|en0 [|en1 [|en2 t]]] eqn:Enix; try discriminate Hlen.
+      assert (Hy : forall P : Prop,
+                 (forall y, yfacts y (out_shape (map to_r [en0; en1])) (src_of (map to_r [en0; en1])) -> P) ->
+                 out_shape (map to_r [en0; en1]) <> [] -> P).
+      { intros P HP Hne. destruct (getitem kf c ix) as [[v|y]|e]; [destruct HC as [HC _]; contradiction|apply (HP y); exact HC|destruct HC]. }
+      unfold g2.
+      destruct en0 as [i0|s0 e0 st0| |l0], en1 as [i1|s1 e1 st1| |l1]; try discriminate Hna; try discriminate Hno.
+      + (* int, int *)
+        rewrite (case_II a ix i0 i1 Ha Hn Hwf). split; reflexivity.
+      + apply Hy; [|discriminate]. intros y Hyf. apply post_post'.
+        destruct Ha; subst a; [apply (case0_IS ix y i0 s1 e1 st1 Hn Haf Hwf Hyf)|apply (case1_IS ix y i0 s1 e1 st1 Hn Haf Hwf Hyf)].
+      + apply Hy; [|discriminate]. intros y Hyf. apply post_post'.
+        destruct Ha; subst a; [apply (case0_SI ix y i1 s0 e0 st0 Hn Haf Hwf Hyf)|apply (case1_SI ix y i1 s0 e0 st0 Hn Haf Hwf Hyf)].
+      + apply Hy; [|discriminate]. intros y Hyf. apply post_post'.
+        destruct Ha; subst a; [apply (case0_SS ix y s0 e0 st0 s1 e1 st1 Hn Haf Hwf Hyf)|apply (case1_SS ix y s0 e0 st0 s1 e1 st1 Hn Haf Hwf Hyf)].
+  Qed.
 End TwoD.
+
+(* ================================================================ the same, for ANY well-formed 2-d GCXS array
+   (every well-formed GCXS is GCXS.from_coo of its COO form: agent-c05's ConvertU.gcxs_image) *)
+From Verif Require Import ConvertU.
+
+Section TwoDAny.
+  Variable V : Type.
+  Variable veqb : V -> V -> bool.
+  Variable add : V -> V -> V.
+
+  Theorem gcxs_getitem_2d_any_proof (kf : nat -> nat) (g : gcxs V) d0 d1 a ix :
+    gcxs_wfb g = true -> g_shape g = [d0; d1] -> g_caxes g = [a] ->
+    no_zero_step ix = true -> basic ix = true -> no_new ix = true ->
+    match np_index [d0; d1] ix with
+    | Raise e => gcxs_getitem V veqb add kf g ix = Raise e /\ e = IndexError
+    | Ok (sh', gsrc) =>
+      match gcxs_getitem V veqb add kf g ix with
+      | Ok (GGArr g') => g_shape g' = sh' /\ g_fill g' = g_fill g /\ gcxs_wfb g' = true
+                         /\ forall j, in_range sh' j -> gden g' j = gden g (gsrc j)
+      | Ok (GGScalar v) => sh' = [] /\ v = gden g (gsrc [])
+      | Raise _ => False
+      end
+    end.
+  Proof.
+    intros Hwf Hsh Hca Hz Hb Hnn.
+    assert (Hs : gcxs_strictb V g = true) by (unfold gcxs_strictb; rewrite Hwf, Hsh; reflexivity).
+    destruct (gcxs_image V g Hs) as [c [Hc [Hcs [Hf [Hok [Hax Heq]]]]]].
+    rewrite Hsh in Hcs, Hok, Hax. rewrite Hca in Hax, Heq.
+    assert (Hd : 0 <= d0 /\ 0 <= d1).
+    { unfold shape_ok in Hok. rewrite Forall_forall in Hok. split; apply Hok; simpl; auto. }
+    assert (Ha : a = 0 \/ a = 1).
+    { destruct Hax as [Hl|Hax]; [simpl in Hl; lia|]. unfold caxes_okb in Hax.
+      apply andb_true_iff in Hax. destruct Hax as [_ Hax]. cbn [forallb length] in Hax.
+      apply andb_true_iff in Hax. destruct Hax as [Hax _]. apply andb_true_iff in Hax. destruct Hax as [H1 H2].
+      apply Z.leb_le in H1. apply Z.ltb_lt in H2. simpl in H2. lia. }
+    assert (Hden : forall j, gden g j = den c j).
+    { intros j. rewrite <- Heq. apply (gcxs_from_coo_den_proof V veqb add c [a] j Hc); rewrite Hcs; [exact Hok|exact Hax]. }
+    destruct Hd as [Hd0 Hd1].
+    pose proof (gcxs_getitem_2d_proof V veqb add c d0 d1 Hc Hcs Hd0 Hd1 kf a ix Ha Hz Hb Hnn) as H.
+    unfold g2 in H. rewrite Heq in H. rewrite Hf in H.
+    destruct (np_index [d0; d1] ix) as [[sh' gsrc]|e]; [|exact H].
+    destruct (gcxs_getitem V veqb add kf g ix) as [[v|g']|e]; [| |exact H].
+    - rewrite Hden. exact H.
+    - destruct H as [H1 [H2 [H3 H4]]]. split; [exact H1|]. split; [exact H2|]. split; [exact H3|].
+      intros j Hj. rewrite Hden. apply H4. exact Hj.
+  Qed.
+
+  (* the two halves under the names of the property list *)
+  Theorem gcxs_getitem_den_2d_proof (kf : nat -> nat) (g : gcxs V) d0 d1 a ix :
+    gcxs_wfb g = true -> g_shape g = [d0; d1] -> g_caxes g = [a] ->
+    no_zero_step ix = true -> basic ix = true -> no_new ix = true ->
+    match np_index [d0; d1] ix with
+    | Raise e => gcxs_getitem V veqb add kf g ix = Raise e /\ e = IndexError
+    | Ok (sh', gsrc) =>
+      match gcxs_getitem V veqb add kf g ix with
+      | Ok (GGArr g') => g_shape g' = sh' /\ g_fill g' = g_fill g
+                         /\ forall j, in_range sh' j -> gden g' j = gden g (gsrc j)
+      | Ok (GGScalar v) => sh' = [] /\ v = gden g (gsrc [])
+      | Raise _ => False
+      end
+    end.
+  Proof.
+    intros Hwf Hsh Hca Hz Hb Hnn.
+    pose proof (gcxs_getitem_2d_any_proof kf g d0 d1 a ix Hwf Hsh Hca Hz Hb Hnn) as H.
+    destruct (np_index [d0; d1] ix) as [[sh' gsrc]|e]; [|exact H].
+    destruct (gcxs_getitem V veqb add kf g ix) as [[v|g']|e]; [exact H| |exact H]. tauto.
+  Qed.
+
+  Theorem gcxs_getitem_wf_2d_proof (kf : nat -> nat) (g : gcxs V) d0 d1 a ix g' :
+    gcxs_wfb g = true -> g_shape g = [d0; d1] -> g_caxes g = [a] ->
+    no_zero_step ix = true -> basic ix = true -> no_new ix = true ->
+    gcxs_getitem V veqb add kf g ix = Ok (GGArr g') -> gcxs_wfb g' = true.
+  Proof.
+    intros Hwf Hsh Hca Hz Hb Hnn Hg.
+    pose proof (gcxs_getitem_2d_any_proof kf g d0 d1 a ix Hwf Hsh Hca Hz Hb Hnn) as H. rewrite Hg in H.
+    destruct (np_index [d0; d1] ix) as [[sh' gsrc]|e]; [tauto|destruct H; discriminate].
+  Qed.
+End TwoDAny.
+
+(* ================================================================ outside the clauses the statements are false of the code *)
+Definition rx_c2 : coo Z := mkCOO [2; 3] [[0; 1]; [1; 0]; [1; 2]] [7; 5; 9] 0.
+Definition rx_c3 : coo Z := mkCOO [2; 2; 2] [[0; 0; 1]; [0; 1; 0]; [1; 1; 1]] [7; 5; 9] 0.
+Definition rx_full := ISlice None None None.
+Definition rx_get (g : gcxs Z) (ix : index) : res (ggres Z) := gcxs_getitem Z Z.eqb Z.add (fun _ => 0%nat) g ix.
+
+(* D22 (GCXS): a 0-d array cannot be indexed at all; None together with integers only raises IndexError *)
+Theorem gcxs_getitem_d22_refuted_proof :
+  (let g := mkGCXS [] [] [3] [] [] 0 in
+   gcxs_wfb g = true /\ (exists sh' s, np_index (g_shape g) [] = Ok (sh', s)) /\ rx_get g [] = Raise TypeError)
+  /\
+  (let g := gcxs_from_coo rx_c2 [0] in let ix := [IInt 0; INone; IInt 1] in
+   gcxs_wfb g = true /\ (exists s, np_index (g_shape g) ix = Ok ([1], s)) /\ rx_get g ix = Raise IndexError).
+Proof.
+  split; cbv zeta; (split; [reflexivity|]); (split; [eexists; try eexists; vm_compute; reflexivity|reflexivity]).
+Qed.
+
+(* D27: None with exactly one surviving axis: a 2-d record without indptr *)
+Theorem gcxs_getitem_d27_refuted_proof :
+  let g := gcxs_from_coo rx_c2 [0] in let ix := [INone; IInt 1; rx_full] in
+  gcxs_wfb g = true /\ (exists s, np_index (g_shape g) ix = Ok ([1; 3], s))
+  /\ match rx_get g ix with Ok (GGArr g') => g_shape g' = [1; 3] /\ gcxs_wfb g' = false | _ => False end.
+Proof.
+  cbv zeta. split; [reflexivity|]. split; [eexists; vm_compute; reflexivity|]. vm_compute. split; reflexivity.
+Qed.
+
+(* D28: None after an integer: the new axis is inserted at the wrong place *)
+Theorem gcxs_getitem_d28_refuted_proof :
+  let g := gcxs_from_coo rx_c3 [0] in let ix := [IInt 0; INone; rx_full; rx_full] in
+  gcxs_wfb g = true /\ (exists s, np_index (g_shape g) ix = Ok ([1; 2; 2], s))
+  /\ match rx_get g ix with Ok (GGArr g') => g_shape g' = [2; 1; 2] | _ => False end.
+Proof.
+  cbv zeta. split; [reflexivity|]. split; [eexists; vm_compute; reflexivity|]. vm_compute. reflexivity.
+Qed.
+
+(* the 2-d theorem is not vacuous: CSC, x[::-1, 1:] and x[1] *)
+Example gcxs_getitem_2d_nonvacuous :
+  let g := gcxs_from_coo rx_c2 [1] in
+  gcxs_wfb g = true
+  /\ rx_get g [ISlice None None (Some (-1)); ISlice (Some 1) None None]
+     = Ok (GGArr (mkGCXS [2; 2] [1] [7; 9] [1; 0] [0; 1; 2] 0))
+  /\ rx_get g [IInt 1] = Ok (GGArr (mkGCXS [3] [] [5; 9] [0; 2] [] 0))
+  /\ rx_get g [IInt (-1); IEllipsis; IInt 2] = Ok (GGScalar 9).
+Proof. vm_compute. repeat split; reflexivity. Qed.
